@@ -54,7 +54,11 @@ Schema(ovs) == [map |-> ConcatMaps(ovs, 1), style |-> PickParam(ovs, "style", 1)
                 extra_out |-> PickParam(ovs, "extra_out", 1)]
 
 (* ------------------------------ key and path of a field ----------------------------- *)
-\* shape = sequence of fields  [id, req, ty, oreq, hasdfl]     (position = order of definition)
+\* shape = sequence of fields  [id, req, ty, oreq, hasdfl, ctordfl, dir]     (position = order of definition)
+\*   dir     "io" an ordinary field | "out" an OUTPUT-ONLY field: it is defined by the class like any other field (so it has
+\*           a position) but the constructor does not take it (dataclass / attrs field(init=False), a computed field): the
+\*           dumper writes it, the loader does not know it, the loaded object holds what the constructor derives (DerivedV).
+\*           "Position at the list is determined by order of field definition": ONE numbering for both directions.
 \*   req     required on input (no default / Required key)        oreq    the accessor cannot fail (everything but optional TypedDict keys)
 \*   hasdfl  a default is declared (never for TypedDict keys)
 \*   ctordfl the constructor itself applies the declared default to a parameter it is not given (not SQLAlchemy: column defaults
@@ -82,7 +86,7 @@ FieldPath(sch, extra, i, f) ==
 OutFieldPath(sch, extra, i, f) ==
   IF f.id.lead > 0 /\ MapHits(sch, f) = {} THEN SKIP ELSE FieldPath(sch, extra, i, f)
 
-Paths(sch, shape, dir) == [i \in 1..Len(shape) |-> IF dir = "in" THEN FieldPath(sch, sch.extra_in, i, shape[i])
+Paths(sch, shape, dir) == [i \in 1..Len(shape) |-> IF dir = "in" THEN (IF shape[i].dir = "out" THEN SKIP ELSE FieldPath(sch, sch.extra_in, i, shape[i]))
                                                    ELSE OutFieldPath(sch, sch.extra_out, i, shape[i])]
 Live(ps) == {i \in 1..Len(ps) : ps[i] # SKIP}
 IsPrefix(p, q) == Len(p) < Len(q) /\ SubSeq(q, 1, Len(p)) = p
@@ -121,6 +125,7 @@ OddV     == [c |-> "atom", a |-> "odd", f |-> 0]      \* an object that is subsc
 XtraV(n) == [c |-> "atom", a |-> "xtra", f |-> n]
 DflV(i)  == [c |-> "atom", a |-> "dfl", f |-> i]      \* the declared default of field i
 FalsyV(i) == [c |-> "atom", a |-> "falsy", f |-> i]    \* a well-typed falsy value of field i that is NOT its default (0, "", None, [])
+DerivedV(i) == [c |-> "atom", a |-> "derived", f |-> i] \* what the constructor itself computes for the output-only field i
 AbsentV  == [c |-> "atom", a |-> "absent", f |-> 0]    \* the field is not there at all (a TypedDict key that is not required)
 Dict(ks, vs) == [c |-> "dict", ks |-> ks, vs |-> vs, xs |-> <<>>]
 List(xs) == [c |-> "list", ks |-> <<>>, vs |-> <<>>, xs |-> xs]
@@ -193,7 +198,8 @@ LoadModel(sch, shape, d) ==
   IN  IF r.errs # {} THEN [ok |-> FALSE, errs |-> r.errs, obj |-> <<>>, extra |-> Dict(<<>>, <<>>)]
       ELSE [ok |-> TRUE, errs |-> {},
             obj |-> [i \in 1..Len(shape) |->
-                       IF i \in fromData THEN (CHOOSE v \in r.vals : v[1] = i)[2]
+                       IF shape[i].dir = "out" THEN DerivedV(i)
+                       ELSE IF i \in fromData THEN (CHOOSE v \in r.vals : v[1] = i)[2]
                        ELSE IF IsExtraTarget(sch.extra_in, i) THEN [c |-> "atom", a |-> "extras", f |-> 0]
                        \* in the layout but not in the data: the loader supplies the declared default itself;
                        \* not in the layout (skipped): nothing is passed and the constructor decides
